@@ -72,6 +72,19 @@ def cases(run: Run):
             c["x0"] = [float(rng.randint(-50, 50)) for _ in range(3)] + [rng.randint(-8, 8) / 4.0 for _ in range(3)]
             c["times"] = sorted({float(rng.randint(1, int(span))) for _ in range(c["ntimes"])} | {span})
         out.append(c)
+    # batches whose members differ in everything that is evaluated per member: radiation pressure on, one member in low orbit (in and out of
+    # the Earth's shadow), others high and always lit - so that a quantity computed once per batch instead of once per member shows
+    for _ in range(run.n(3, 20)):
+        c = {"kind": "batch", "model": "sp", "method": rng.choice(["RK45", "DOP853"]), "seed": rng.randint(0, 10**6), "dur": rng.choice([3600.0, 7200.0]),
+             "sp": {"degree": 2, "bodies": rng.choice([[], ["sun", "moon"]]), "srp": True, "gr": False}, "t0": rng.choice([0.0, 60.0]), "frac": 0.5,
+             "K": rng.choice([3, 4, 6]), "layout": rng.choice(["C", "F"]), "ntimes": 2}
+        leo = {"a": rng.choice([6800.0, 7000.0]), "e": 0.001, "i": rng.choice([0.1, 0.5, 1.2]), "O": rng.uniform(0, 2 * math.pi), "w": 0.0, "nu": rng.uniform(0, 2 * math.pi)}
+        others = [{"a": rng.choice([26600.0, 42164.0, 12000.0, 6900.0]), "e": rng.choice([0.0, 0.01]), "i": rng.choice([0.0, 0.9, 1.5]), "O": rng.uniform(0, 2 * math.pi),
+                   "w": 0.0, "nu": rng.uniform(0, 2 * math.pi)} for _ in range(c["K"] - 1)]
+        members = [leo] + others
+        rng.shuffle(members)
+        c["orbit"], c["members"] = members[0], members[1:]
+        out.append(c)
     return out
 
 
@@ -118,7 +131,10 @@ def impl_run(c):
         out["kepler_half_twice"] = [float(v) for v in solveKeplerProblemUniversal(solveKeplerProblemUniversal(x0, c["dur"] * c["frac"]), c["dur"] * (1 - c["frac"]))]
     elif kind == "batch":
         rs = np.random.default_rng(c["seed"])
-        cols = [x0] + [kepler_state(**{**c["orbit"], "nu": float(rs.uniform(0, 2 * math.pi)), "O": float(rs.uniform(0, 2 * math.pi))}) for _ in range(c["K"] - 1)]
+        if "members" in c:
+            cols = [x0] + [kepler_state(**m) for m in c["members"]]
+        else:
+            cols = [x0] + [kepler_state(**{**c["orbit"], "nu": float(rs.uniform(0, 2 * math.pi)), "O": float(rs.uniform(0, 2 * math.pi))}) for _ in range(c["K"] - 1)]
         X = np.array(cols).T.copy()  # (6, K) C-contiguous
         if c["layout"] == "F":
             Xin = np.asfortranarray(X)
@@ -274,7 +290,10 @@ def oracle(run: Run, c, impl):
         same("kepler-compose", o["kepler"], o["kepler_half_twice"], "closed-form solution in one step against two steps", pt=5e-6 * revs + 2e-10 * ob["a"] * revs, vt=5e-9 * revs)
     if c["kind"] == "batch":
         for k, (b, s) in enumerate(zip(o["batch"], o["single"])):
-            same("batch", b, s, f"column {k} of a batch of {c['K']} ({c['layout']} layout) against the same state propagated alone", pt=max(ptol, 2e-5), vt=max(vtol, 2e-8))
+            same("batch", b, s, f"column {k} of a batch of {c['K']} ({c['layout']} layout) against the same state propagated alone",
+                 # with radiation pressure the right-hand side jumps at the shadow boundary: either run is then only good to ~0.5 m after two hours
+                 # (measured against a 1e-13 reference: batch 0.39 m, alone 0.43 m, on opposite sides)
+                 pt=max(ptol, 1e-3 if (c["model"] == "sp" and c["sp"]["srp"]) else 2e-5), vt=max(vtol, 1e-6 if (c["model"] == "sp" and c["sp"]["srp"]) else 2e-8))
             if fails:
                 break
         K = c["K"]
